@@ -36,6 +36,14 @@ enum Op {
     NeTo(Vec<i64>), // not (l != [..])
     SwapWith(Vec<i64>),
     AddAll(i64), // l.transform |x| x + d
+    // reads through the VM's unpacking / matching instructions (TempIndex, SliceFrom/SliceTo)
+    LastVia(&'static str),  // match c (..., last) / |(others..., last)|
+    FirstVia(&'static str), // match c (first, ...)
+    TailVia,                // match c (first, rest...) → rest
+    InitVia,                // match c (others..., last) → others
+    /// several instructions, each with its own guard: the values seen are collected and checked
+    /// against the universe of values by the large-history oracle only
+    Collect(&'static str),
     // ---- map ----
     Ins(i64, i64),
     Ins1(i64),
@@ -118,6 +126,11 @@ impl Op {
             Op::EqTo(xs) | Op::NeTo(xs) => format!("(eq {})", ints_sp(xs)).replace(" )", ")"),
             Op::SwapWith(xs) => format!("(swap {})", ints_sp(xs)).replace(" )", ")"),
             Op::AddAll(d) => format!("(addall {})", d),
+            Op::LastVia(_) => "(last)".into(),
+            Op::FirstVia(_) => "(first)".into(),
+            Op::TailVia => "(tail)".into(),
+            Op::InitVia => "(init)".into(),
+            Op::Collect(n) => format!("(collect {})", n),
             Op::Ins(k, v) => format!("(ins {} {})", k, v),
             Op::Ins1(k) => format!("(ins1 {})", k),
             Op::Put(k, v) => format!("(put {} {})", k, v),
@@ -172,6 +185,18 @@ impl Op {
             Op::NeTo(xs) => format!("  r.push(not (c != [{}]))\n", ints_cs(xs)),
             Op::SwapWith(xs) => format!("  tmp = [{}]\n  c.swap(tmp)\n  r.push(tmp)\n", ints_cs(xs)),
             Op::AddAll(d) => format!("  c.transform(|x| x + {})\n  r.push('u')\n", d),
+            Op::LastVia(f) => match *f {
+                "arg" => "  r.push(try_null(|| last_a(c)))\n".into(),
+                _ => "  r.push(last_m(c))\n".into(),
+            },
+            Op::FirstVia(_) => "  r.push(first_m(c))\n".into(),
+            Op::TailVia => "  r.push(tail_m(c))\n".into(),
+            Op::InitVia => "  r.push(init_m(c))\n".into(),
+            Op::Collect(f) => match *f {
+                "for" => "  seen = []\n  for x in c\n    seen.push(x)\n  r.push(seen)\n".into(),
+                "iter" => "  r.push(c.iter().to_tuple())\n".into(),
+                _ => "  a, b = c\n  r.push((a, b))\n".into(),
+            },
             Op::Ins(k, v) => format!("  r.push(c.insert('k{}', {}))\n", k, v),
             Op::Ins1(k) => format!("  r.push(c.insert('k{}'))\n", k),
             Op::Put(k, v) => format!("  c.k{} = {}\n  r.push('u')\n", k, v),
@@ -187,7 +212,7 @@ impl Op {
     }
 }
 
-const SCRIPT_HEAD: &str = "set_at = |c, i, x|\n  try\n    c[i] = x\n    'u'\n  catch _\n    'E'\n\nidx_at = |c, i|\n  try\n    c[i]\n  catch _\n    null\n\ntry_call = |f|\n  try\n    f()\n    'u'\n  catch _\n    'E'\n\ntry_val = |f|\n  try\n    f()\n  catch _\n    'E'\n\ntry_null = |f|\n  try\n    f()\n  catch _\n    null\n\n";
+const SCRIPT_HEAD: &str = "set_at = |c, i, x|\n  try\n    c[i] = x\n    'u'\n  catch _\n    'E'\n\nidx_at = |c, i|\n  try\n    c[i]\n  catch _\n    null\n\ntry_call = |f|\n  try\n    f()\n    'u'\n  catch _\n    'E'\n\ntry_val = |f|\n  try\n    f()\n  catch _\n    'E'\n\ntry_null = |f|\n  try\n    f()\n  catch _\n    null\n\nlast_m = |c|\n  match c\n    (..., last) then last\n    else null\n\nlast_a = |(others..., last)| last\n\nfirst_m = |c|\n  match c\n    (first, ...) then first\n    else null\n\ntail_m = |c|\n  t = match c\n    (first, rest...) then rest\n    else []\n  if t == null then [] else t\n\ninit_m = |c|\n  t = match c\n    (others..., last) then others\n    else []\n  if t == null then [] else t\n\n";
 
 /// a large comparison operand is built once at load time (a literal of that size exceeds the
 /// compiler's register limit)
@@ -380,6 +405,10 @@ impl St {
                 let old = std::mem::replace(l, xs.clone());
                 ints_tok(&old)
             }
+            (St::L(l), Op::LastVia(_)) => opt_tok(l.last().copied()),
+            (St::L(l), Op::FirstVia(_)) => opt_tok(l.first().copied()),
+            (St::L(l), Op::TailVia) => ints_tok(if l.is_empty() { &[] } else { &l[1..] }),
+            (St::L(l), Op::InitVia) => ints_tok(if l.is_empty() { &[] } else { &l[..l.len() - 1] }),
             (St::L(l), Op::AddAll(d)) => {
                 for e in l.iter_mut() {
                     *e += *d;
